@@ -1,20 +1,34 @@
 import GV.Driver
 import GV.DriverExt
+import GV.EngineDriver
 open GV
 
-partial def loop (h : IO.FS.Stream) (out : IO.FS.Stream) (st : Session) (interactive : Bool) : IO Unit := do
+structure Full where
+  base : Session := Session.new
+  eng : EngSession := {}
+
+def dispatchAll (st : Full) (line : String) : Full × String :=
+  let (verb, head, payload) := splitRequest line
+  if verb.startsWith "eng." then
+    let (e', r) := engDispatch st.eng verb head payload
+    ({ st with eng := e' }, r)
+  else
+    let (b', r) := dispatch st.base line
+    ({ st with base := b' }, r)
+
+partial def loop (h : IO.FS.Stream) (out : IO.FS.Stream) (st : Full) (interactive : Bool) : IO Unit := do
   let line ← h.getLine
   if line.isEmpty then return ()
   let t := line.trimAscii.toString
   if t.isEmpty || t.startsWith "#" then
     loop h out st interactive
   else
-    let (st', resp) := if t == "session.reset" then (Session.new, "res=ok") else dispatch st t
+    let (st', resp) := if t == "session.reset" then (({} : Full), "res=ok") else dispatchAll st t
     out.putStrLn resp
     if interactive then out.flush
     loop h out st' interactive
 
 def main (args : List String) : IO Unit := do
   let out ← IO.getStdout
-  loop (← IO.getStdin) out Session.new (args.contains "--interactive")
+  loop (← IO.getStdin) out {} (args.contains "--interactive")
   out.flush
